@@ -239,6 +239,11 @@ int main(int argc, char **argv)
 		ip += ain - strm.avail_in;
 		op += aout - strm.avail_out;
 		record("Ret", -1, ret, (long)strm.total_in, (long)strm.total_out, (long)(ain - strm.avail_in));
+		if (enc && (rnd() % 3 == 0 || ret == LZMA_STREAM_END)) {
+			uint64_t pin = 0, pout = 0;
+			lzma_get_progress(&strm, &pin, &pout);
+			record("Progress", -1, (long)pin, (long)pout, 0, 0);
+		}
 		if (ret == LZMA_STREAM_END && action != LZMA_FINISH) {
 			// flush / barrier completed
 			record("FlushDone", -1, action, (long)ip, (long)op, 0);
